@@ -789,7 +789,14 @@ fn raw_value(case: &RawCase, obs: &mut Obs) -> PropResult {
 	// every count and attribute_length as the JVMS lays them out
 	match walk_layout_frames(&bytes) {
 		Ok((names, file_frames)) => {
-			frames_agree(&v, &file_frames, obs)?;
+			if let Err(e) = frames_agree(&v, &file_frames, obs) {
+				// with a Long/Double in the pool the crate numbers entries where the JVMS numbers slots (open finding):
+				// a JVMS reader then resolves attribute_name_index to another name and sees other attributes
+				if has_wide && obs.known("C20-long-double-pool-slots") {
+					return Ok(());
+				}
+				return Err(e);
+			}
 			let mut names = names;
 			names.sort();
 			names.dedup();
